@@ -85,7 +85,7 @@ Definition api_totality_table : list api_row := [
   ("filter.Filter.Name", []);
   ("filter.Filter.NewGenerator", []);
   ("filter.FilterGenerator.Add", []);
-  ("filter.FilterGenerator.Generate", [("required argument nil", 7); ("n<0", 23); ("n huge", 23)]);
+  ("filter.FilterGenerator.Generate", [("required argument nil", 7); ("n huge", 19)]);
   ("filter.NewBloomFilter", []);
   ("iterator.Array.Index", []);
   ("iterator.ArrayIndexer.Get", []);
